@@ -136,6 +136,9 @@ def entries_for(fmt):
     e = ["odml.save", "ODMLWriter.write_file"]
     if fmt == "XML":
         e.append("XMLWriter.write_file")
+        # the XML writer's non-default header options
+        e += ["odml.save:local_style", "ODMLWriter.write_file:custom_template", "XMLWriter.write_file:local_style",
+              "XMLWriter.write_file:custom_template"]
     if fmt.startswith("RDF"):
         e.append("RDFWriter.write_file")
     return e
@@ -214,12 +217,17 @@ def do_save(doc, fmt, sub, entry, fault, path):
             return f
         patch(builtins, "open", fake_open)
     try:
+        entry, _, opt = entry.partition(":")
+        if opt == "local_style":
+            kw["local_style"] = True
+        elif opt == "custom_template":
+            kw["custom_template"] = "<xsl:template match=\"odML\"><p>custom</p></xsl:template>"
         if entry == "odml.save":
             odml.save(doc, path, backend, **kw)
         elif entry == "ODMLWriter.write_file":
             ODMLWriter(backend).write_file(doc, path, **kw)
         elif entry == "XMLWriter.write_file":
-            XMLWriter(doc).write_file(path)
+            XMLWriter(doc).write_file(path, **kw)
         else:
             RDFWriter(doc).write_file(path, kw["rdf_format"])
     except Exception as exc:
@@ -279,7 +287,7 @@ def run_cell(ctx, cell, sdir, spec=None):
         after = fsmon.tree_state(wdir)
     cfg = "%s|%s|%s" % (fmt if not sub else "RDF:" + sub, entry, target)
     rec.count("grid", "%s / %s / %s" % (state, fault, "raised" if exc is not None else "returned"))
-    validating = entry in ("odml.save", "ODMLWriter.write_file")
+    validating = entry.partition(":")[0] in ("odml.save", "ODMLWriter.write_file")
     # (a) invalid documents are refused with ParserException
     if has_error and validating:
         rec.monitor("invalid-refused")
@@ -345,7 +353,7 @@ def grid():
                     continue   # an invalid document is refused before the fault can act
                 for target in ("absent", "existing"):
                     for entry in entries_for(fmt):
-                        if entry in ("XMLWriter.write_file", "RDFWriter.write_file") and state == "warnings-only":
+                        if entry.partition(":")[0] in ("XMLWriter.write_file", "RDFWriter.write_file") and state == "warnings-only":
                             continue
                         cells.append((state, fmt, sub, fault, target, entry))
     return cells
